@@ -514,7 +514,10 @@ struct Machine {
     mark();
     Spline<T, o> &a = *slot<o>(ia).s;
     const Den da = slot<o>(ia).shadow;
-    const R cr = genScalar(g, dyadic);
+    // multiplications also see the scalar 0 (never a divisor)
+    const bool mayBeZero = kind == 0 || kind == 1 || kind == 4;
+    const R cr = (mayBeZero && g.chance(1, 10)) ? R(0) : genScalar(g, dyadic);
+    if (cr == 0) c.count("scalar:zero");
     const T cs = mk<T>(cr);
     const std::string desc = splineStr(a) + " c=" + model::rstr(cr);
     note(std::string(names[kind]) + "(" + std::to_string(o) + "." +
@@ -623,7 +626,7 @@ struct Machine {
     static const char *names[] = {"construct",   "copy-construct", "copy-assign",
                                   "move-construct", "move-assign", "self-assign",
                                   "self-move",   "destroy",        "construct-empty",
-                                  "construct-point"};
+                                  "construct-point", "support-move"};
     size_t ia = g.below(NSLOT), ib = (ia + 1 + g.below(NSLOT - 1)) % NSLOT;
     beginStep(names[kind]);
     mark();
@@ -743,6 +746,37 @@ struct Machine {
           wrote(o, ia);
           slot<o>(ia).shadow = denote(ref);
 #endif
+          break;
+        }
+        case 10: {
+          // supports on their own: move construct / move assign, then reuse
+          ensure<o>(ia);
+          wrote(o, ia);
+          endStep();
+          beginStep(names[kind]);
+          const Support<T> orig = slot<o>(ia).s->getSupport();
+          Support<T> s1 = orig;
+          Support<T> s2(std::move(s1));
+          auto emptyOnSameGrid = [&](const Support<T> &s) {
+            return s.getStartIndex() == 0 && s.getEndIndex() == 0 && s.empty() &&
+                   s.size() == 0 && s.numberOfIntervals() == 0 &&
+                   s.getGrid() == orig.getGrid() && s.hasSameGrid(orig);
+          };
+          if (!emptyOnSameGrid(s1) || !(s2 == orig))
+            viol("C10", "moved-from-state/support-move-construct",
+                 "window after move (" + std::to_string(s1.getStartIndex()) +
+                     "," + std::to_string(s1.getEndIndex()) + ")");
+          // the moved-from support is assigned to and combined again
+          if (!(s1.calcUnion(s2) == orig) ||
+              !(s2.calcIntersection(s1) == Support<T>::createEmpty(*gridA)))
+            viol("C10", "moved-from-support-not-usable", "");
+          s1 = s2;
+          if (!(s1 == orig)) viol("C10", "moved-from-support-reassign", "");
+          Support<T> s3 = Support<T>::createEmpty(*gridB);
+          s3 = std::move(s2);
+          if (!emptyOnSameGrid(s2) || !(s3 == orig))
+            viol("C10", "moved-from-state/support-move-assign", "");
+          c.count("c10:moved-from-support-checked");
           break;
         }
         default:
@@ -1153,7 +1187,7 @@ struct Machine {
         } else if (roll < 42) {
           stepScalar<A>((int)g.below(7));
         } else if (roll < 62) {
-          stepLife<A>((int)g.below(10));
+          stepLife<A>((int)g.below(11));
         } else if (roll < 68) {
           dispatchOrder<MAXO>(ob, [&](auto OB) {
             constexpr size_t Bo = OB.value;
